@@ -255,6 +255,25 @@ def stream_random(R, rng, n_graphs):
         real = fmt_real(real_construct(edges, verts))
         line = "construct %d %s %d %s" % (len(verts), " ".join(vdesc_tokens(v) for v in verts), len(edges), " ".join(edesc_tokens(e) for e in edges))
         R.add("random", line, real, dict(nv=nv, ne=ne, duplicate_ids=dup and len(set(vids)) < len(vids)))
+        # history: the SAME edge objects (possibly bound by the construction above) are used for a second Graph over
+        # different Vertex objects — other order, other pose kinds, possibly a missing id.  The constructor must bind
+        # (and validate) against the vertices it is given now, never against a previous binding.
+        if verts and edges and rng.random() < 0.5:
+            verts2 = []
+            order = list(range(len(verts)))
+            rng.shuffle(order)
+            drop = rng.random() < 0.25
+            for j, i in enumerate(order):
+                if drop and j == 0:
+                    continue
+                v = verts[i]
+                k = obj_kind(v.pose)
+                if rng.random() < 0.3:
+                    k = rng.choice(C.KINDS)
+                verts2.append(C.Vertex(v.id, C.raw_pose(k, BASE[k])))
+            real2 = fmt_real(real_construct(edges, verts2))
+            line2 = "construct %d %s %d %s" % (len(verts2), " ".join(vdesc_tokens(v) for v in verts2), len(edges), " ".join(edesc_tokens(e) for e in edges))
+            R.add("rebind", line2, real2, dict(nv=len(verts2), ne=ne, reused_edges=True, dropped_vertex=drop))
 
 
 def stream_is_valid(R, rng, n):
